@@ -20,6 +20,50 @@ CLAIMED = {
         design="§3 C07"),
 }
 
+
+def _c(text, note, technique, design, category="proof"):
+    return dict(text=text, note=note, technique=technique, design=design, category=category)
+
+STD_NOTE = ("Trusted: Lean kernel; axioms ⊆ {propext, Classical.choice, Quot.sound} audited per run; the hand-written model is tied to /repo "
+            "only by the correspondence (generators bound what it sees; distribution in the evidence); python harness and exact oracles; "
+            "numba/pyarrow/pandas/Dask are exercised, not modelled. ")
+
+CLAIMED.update({
+    "C01": _c("Lean model of every *_intersect_bounds kernel (Model/Geom.lean) with the theorems of Props/C01.lean, tied to the code by an "
+              "exhaustive small-grid correspondence (every line <=3 vertices, all grid triangles, shells with holes, multi-part shapes x every "
+              "integer box, all forms: array / inds / scalar / GeoSeries / sliced, five subtypes) plus seeded random shapes, and an independent "
+              "exact-rational oracle compared with the model on a share of the cases.",
+              STD_NOTE + "What is proved vs. still open is listed theorem by theorem in the evidence and in DESIGN.md §3 C01.",
+              "Lean 4 proof about the kernel model + model/implementation/oracle correspondence", "§3 C01"),
+    "C02": _c("Lean model of point-vs-shape intersects (Geom.point*, the winding loop as coded) with the theorems of Props/C02.lean; "
+              "correspondence over every shape of the grid families x every grid point (rays through vertices, points on edges), a missing and an "
+              "all-NaN point, array / inds / scalar / GeoSeries forms, plus seeded random shapes; on-ring points compared for form agreement only.",
+              STD_NOTE + "The topological step from the proved winding facts to 'inside' is a paper argument (DESIGN §5).",
+              "Lean 4 proof about the winding-number model + correspondence with exact oracle", "§3 C02"),
+    "C03": _c("Lean page-tree model of the Hilbert R-tree (Model/RTree.lean) proved for every permutation of the rows (so for every p) and every "
+              "page size; correspondence: exhaustive d=1 (n<=3, endpoints 0..3 or NaN, every page size and query), small exhaustive d=2, seeded "
+              "trees up to n=2000 with ties, NaN rows, pickled and re-queried instances; results collected before comparison.",
+              STD_NOTE + "The array encoding of the tree (index arithmetic) is validated by the correspondence, not proved.",
+              "Lean 4 proof by induction over the page tree + correspondence", "§3 C03"),
+    "C13": _c("Lean model of the NaN-aware bounds scans (Model/Bounds.lean) with the theorems of Props/C13.lean; correspondence for all kinds x "
+              "subtypes, missing / empty / non-finite coordinates, derived arrays with non-zero offsets, GeoSeries / Dask / spatial-index wrappers.",
+              STD_NOTE, "Lean 4 proof about the scan model + correspondence", "§3 C13"),
+    "C14": _c("Lean model of compute_area / compute_line_length (doubled areas, squared segment lengths, all in Int) with the theorems of "
+              "Props/C14.lean; correspondence compares areas exactly, lengths as the same fold of square roots, boundary ring by ring, scalar vs "
+              "array, translation, missing -> NaN, for all kinds / subtypes / derived arrays.",
+              STD_NOTE + "sqrt and float addition are applied by the harness in the model's order (IEEE), not interpreted in Lean.",
+              "Lean 4 proof about the measure model + correspondence", "§3 C14"),
+    "C15": _c("Lean model of orient_polygons on abstract rings (Geom.orientRings) with the theorems of Props/C15.lean; correspondence over every "
+              "combination of ring directions, degenerate rings, slices, multi-part elements; idempotence, input untouched, valid-polygon clauses "
+              "checked directly on the implementation.",
+              STD_NOTE, "Lean 4 proof about the orientation model + correspondence", "§3 C15"),
+    "C16": _c("Stateful model-based correspondence: random derivation histories with every quantity compared against the same selection of the "
+              "source's; request validation compared with the Lean spec Select.takeSpec/getItemSpec (theorems in Props/C16.lean).",
+              STD_NOTE + "pyarrow slice/take/concat are specified by their effect on the decoded elements and validated at run time; the Arrow "
+              "buffer layer is not yet modelled in Lean, so the proof part covers request validation only (partial).",
+              "Lean 4 spec of selection validation + stateful model-based correspondence", "§3 C16"),
+})
+
 PENDING_REASON = "check not built yet in this round (planned, see DESIGN.md §8); not claimed"
 
 
